@@ -242,7 +242,7 @@ func evaluate(c dcase) (kind, what string, final, parsed bool) {
 			return fmt.Sprintf("datestring/year-width/%d-digit", len(ys)),
 				fmt.Sprintf("DateString(%s) = %q: the year is written with %d digit(s) instead of YYYY (expected %q); the string %s", tm.Format(time.RFC3339), s, len(ys), ref, verdict), true, false
 		}
-		k := "datestring/invalid/" + bad
+		k := "datestring/invalid" // which field the recogniser stumbles over depends on the data: text only
 		if otherTime {
 			k = "datestring/denotes-other-time"
 		}
